@@ -59,15 +59,15 @@ CLAIMED = {
          "the pattern grammar encodes the property's 'unambiguous in text' precondition (separator after variable-width fields, no narrow names, zone wide enough, derived fields only next to their determining fields); anything outside is skipped and counted, not judged",
          "DESIGN.md 4 C12"),
  "C13": ("grammar-based generation from the RFC 3339 ABNF + field mutants against an independent hand-written RFC 3339 reader/writer",
-         "500k + 500k (quick) / 10M + 10M (thorough): write side over all instants of years 0001-9999 x whole-minute offsets x 5 precisions, read side over ABNF strings with 0..40 fraction digits and 11 kinds of out-of-range field mutants, through parse_rfc3339 and FromStr",
+         "500k + 500k (quick) / 10M + 10M (thorough): write side over all instants of years 0001-9999 x whole-minute offsets x 5 precisions, read side over ABNF strings with 0..40 fraction digits plus fraction lengths at 2^k and 2^k+-1 up to 65 537 digits and 11 kinds of out-of-range field mutants, through parse_rfc3339 and FromStr",
          "year 0000, second :60 and lower-case t/z are unspecified and not judged; beyond nine fraction digits truncation and round-to-nearest are both accepted",
          "DESIGN.md 4 C13"),
  "C14": ("complete enumeration of short hostile strings per symbol x width + grammar-aware mutational generation + coverage-guided libFuzzer targets, all under catch_unwind with a validity oracle on Ok",
-         "quick: all 1885 strings of length <= 3 over a 12-symbol alphabet (1-4 byte characters, signs, quote) x 456 one-field patterns and through every pattern-less API (~3.7M calls) + 1.1M mutated grammar cases; thorough: length <= 4 (22621 strings), 22M mutated cases and libFuzzer campaigns on the text and TZif targets",
+         "quick: all 1885 strings of length <= 3 over a 12-symbol alphabet (1-4 byte characters, signs, quote) x 456 one-field patterns and through every pattern-less API (~3.7M calls) + 3M mutated grammar cases (incl. long multi-byte fields) + ~3k length-threshold cases (field widths, digit runs, quoted text, lists and padding of 2^4..2^16 +-1 characters) ; thorough: length <= 4 (22621 strings), 22M mutated cases and libFuzzer campaigns on the text and TZif targets",
          "a panic anywhere in parse/from_str/parse_rfc3339/format/CronSchedule::parse/serde is a violation; Ok values are re-validated through the public constructors",
          "DESIGN.md 4 C14"),
  "C16": ("grammar-based generation + single-edit mutation + per-field complete value/step/range enumeration against a reference cron parser; denoted sets observed through the iterator under a pinned clock",
-         "130k (quick) / 2M (thorough) expressions (half mutated) plus every value, step and (grid of) ranges per field; accept/reject agreement and, for accepted expressions, equality of each field's denoted set read back through five probe schedules",
+         "200k (quick) / 2M (thorough) expressions (half mutated; one in twelve with lists of up to ~1000 items or whitespace runs of up to 65 537 characters; one in ten a sparse schedule read back from a generated start) plus every value, step and (grid of) ranges per field; accept/reject agreement and, for accepted expressions, equality of each field's denoted set read back through five probe schedules",
          "leading zeros, '+' on values, steps > max+1, ranges with start > end and Unicode white space are unspecified and skipped; needs the clock pin hook",
          "DESIGN.md 4 C16"),
  "C17": ("model-based stateful generation: histories of (advance pinned clock, next, optional clone) against a reference earliest-matching-minute search",
@@ -75,15 +75,15 @@ CLAIMED = {
          "'restricted' day field = its value set is not the full range (set semantics, as the implementation and the property's anchors use); clock window 1970-2400; needs the clock pin hook",
          "DESIGN.md 4 C17"),
  "C18": ("differential against a reference RFC 8536 / POSIX-TZ evaluator (itself cross-checked against CPython zoneinfo) over a vendored zoneinfo corpus and synthesized TZif files",
-         "all 788 vendored fat+slim zone files x ~150 (quick) / ~2000 (thorough) timestamps at transitions, rule switches and random instants, plus 20k (quick) / 1M (thorough) synthesized v1/v2/v3 files with IANA-shaped footer rules; one case in ten through the real Offset::Local.resolve() with injected /etc/localtime and pinned clock",
-         "only timestamps from the first transition on are judged; empty footers, leap-second tables and the right/ tree are out of scope; needs the TZif entry point and /etc/localtime injection hooks",
+         "all 788 vendored fat+slim zone files x ~150 (quick) / ~2000 (thorough) timestamps at transitions, rule switches and random instants, plus 20k (quick) / 1M (thorough) synthesized v1/v2/v3 files with IANA-shaped footer rules (one in five with leap-second records), looked up in years 1900-2500 and, for the footer rule, in 22 far years from the first to the last supported year; one case in ten through the real Offset::Local.resolve() with injected /etc/localtime and pinned clock",
+         "only timestamps from the first transition on are judged; empty footers are out of scope; leap-second records are stepped over, their corrections are not applied (the vendored corpus has no right/ zones); needs the TZif entry point and /etc/localtime injection hooks",
          "DESIGN.md 4 C18"),
  "C19": ("structure-aware mutation of valid TZif files + mutated POSIX-TZ grammar + raw bytes, under catch_unwind; libFuzzer target on raw bytes in the thorough tier",
          "quick: ~9k systematic mutants (every header count x value, every truncation point, type bytes, hostile rule strings) + 600k random mutants (syntactically hostile and valid-but-degenerate footers) + 400k files with free header counts and a body laid out consistently with them but arbitrary content, each accepted file probed at ~100 timestamps over the whole DateTime range, one in ten through Offset::Local.resolve(); thorough: 6M mutants + fuzz campaign",
          "'never loops' is only bounded by observing that every case returns (a case above 2 s is labelled); I/O failure modes other than a read error are not modelled",
          "DESIGN.md 4 C19"),
  "C20": ("seeded random search against the reference formatter and a serde_json round trip; mutational generation for malformed text",
-         "500k (quick) / 10M (thorough) values of all three types (all eras, all offsets) for Display/FromStr/serde, 300k / 5M malformed texts through FromStr and serde_json under catch_unwind",
+         "500k (quick) / 10M (thorough) values of all three types (all eras, all offsets) for Display/FromStr/serde, 1M / 5M malformed texts through FromStr and serde_json under catch_unwind; an accepted text of the documented shape must be read as the value it names (digit runs also congruent modulo 2^32 / 2^64 to valid fields)",
          "DateTime serde is judged for years 0001-9999 and whole-minute offsets only (the RFC 3339 domain)",
          "DESIGN.md 4 C20"),
 }
